@@ -1,4 +1,4 @@
-CONSTANTS PipeLen = 2 StartN = {1,2,3,4} NRandom = 5000 LongDepth = 10
+CONSTANTS PipeLen = 2 StartN = {1,2,3,4} NRandom = 5000 LongDepth = 10 SingleN = {5, 6}
 INIT Init
 NEXT Next
 INVARIANT Emitted
